@@ -722,6 +722,34 @@ COL_NAMES = ["id", "code_2", "code", "note", "qty", "price", "email", "flag", "a
              "notes", "id2", "qty_total"]
 
 
+def _set_whole_path_quoting(ck):
+    """a dotted name quoted as a whole (`sales.orders`, "sales.orders" is not used: a dot inside double quotes is part of the name)
+    names the same table as the part-by-part and the bare spelling: ALTER / INDEX reach it whichever way both are written"""
+    from bounded.common import parse
+    spellings = {"whole-backtick": "`%s.%s`", "parts-backtick": "`%s`.`%s`", "bare": "%s.%s", "parts-dq": '"%s"."%s"', "parts-br": "[%s].[%s]"}
+    n = 0
+    for (ck_name, created), (rk_name, referenced) in itertools.product(spellings.items(), spellings.items()):
+        if "whole-backtick" not in (ck_name, rk_name):
+            continue
+        for schema, name in (("sales", "orders"), ("Archive", "Order_Items")):
+            ddl = ("CREATE TABLE %s (id int, qty int);\nCREATE TABLE %s (id int);\nALTER TABLE %s ADD z int;\nCREATE INDEX ix1 ON %s (id);"
+                   % (created % (schema, name), created % ("other", name), referenced % (schema, name), referenced % (schema, name)))
+            key = (ck_name, rk_name, schema)
+            r = parse(ddl)
+            n += 1
+            if r[0] != "ok":
+                ck.fail("whole-path-quoting", key, "c04:whole-path-quoted-target-not-found", dict(ddl=ddl, observed=r, expected="the statements reach the table defined in the script"))
+                continue
+            tabs = [e for e in r[1] if "table_name" in e]
+            cols = [[c["name"] for c in t["columns"]] for t in tabs]
+            idx = [[i.get("index_name") for i in t.get("index", [])] for t in tabs]
+            if len(tabs) != 2 or cols != [["id", "qty", "z"], ["id"]] or idx != [["ix1"], []]:
+                ck.fail("whole-path-quoting", key, "c04:whole-path-quoted-target-misrouted", dict(ddl=ddl, observed=dict(columns=cols, indexes=idx), expected=dict(columns=[["id", "qty", "z"], ["id"]], indexes=[["ix1"], []])))
+            else:
+                ck.ok("whole-path-quoting", key, dict(ddl=ddl[:200]))
+    return n
+
+
 def _set_random(ck):
     rnd = ck.rnd
     quick = ck.quick()
@@ -824,6 +852,7 @@ def check(ck):
     n_dir = _set_readd(ck)
     n_twice = _set_same_id_twice(ck)
     n_rand = _set_random(ck)
+    n_whole = _set_whole_path_quoting(ck)
     rule = ("scripts generated from an abstract description: 1..4 CREATE TABLEs (same name in several schemas, with and without schema, prefix-related names, "
             "4 quoting styles) followed by ALTER TABLE (ADD column, DROP / RENAME / MODIFY / ALTER COLUMN, ADD [CONSTRAINT] UNIQUE / PRIMARY KEY / CHECK / "
             "DEFAULT..FOR / FOREIGN KEY) and CREATE [UNIQUE] INDEX statements whose target is spelled in any of 4 quotings x 3 letter cases; contract: the final "
@@ -834,7 +863,7 @@ def check(ck):
             "a statement whose target is not defined in the script raises")
     bound = ("routing-matrix: %d (6 table shapes x every target x %d statement kinds x %s spellings); undefined-target: %d; index-directions: %d (1..%d columns x "
              "{none, ASC, DESC}^k + lower-case keywords); column-spelling: %d (5 declared x 12 referenced spellings x 5 kinds x 4 positions%s); directed-sequences: %d; same-id-twice: %d (3 identities x 5 ways of registering the identity twice x statement kinds); "
-             "random-sequences: %d scripts of 1-%d tables x 1-%d statements, %s"
+             "random-sequences: %d scripts of 1-%d tables x 1-%d statements, %s; whole-path quoting: {nw} scripts".replace("{nw}", str(n_whole))
              % (n_route, len(KINDS), "2" if ck.quick() else "12 + 4 mixed", n_undef, n_index, 3 if ck.quick() else 4, n_spell, ", sampled" if ck.quick() else "",
                 n_dir, n_twice, n_rand, 3 if ck.quick() else 4, 8 if ck.quick() else 14, ("every 5th in one of the 15 output modes" if ck.quick() else "2 of 3 in one of the 15 output modes") + ", every 6th with normalize_names=True"))
     return rule, bound
